@@ -1,1 +1,3 @@
+import OtelVerif.Props.C04
 import OtelVerif.Props.C09
+import OtelVerif.Props.C13
